@@ -338,22 +338,39 @@ def run_harness(exe, seed, tier, timeout, case_timeout=60, only=None, limit=None
     return lines, crashes, done
 
 
-def run_driver(case_lines, timeout=1800):
-    """Feed protocol lines to the Lean driver. Returns list of verdict lines (same length) or None."""
+def run_driver(case_lines, timeout=1800, jobs=1):
+    """Feed protocol lines to the Lean driver. Returns list of verdict lines (same length) or None.
+    The driver answers every line independently, so `jobs` > 1 splits the lines into contiguous chunks
+    evaluated by concurrent driver processes (verdicts are concatenated in the original order)."""
     exe = os.path.join(LEAN, '.lake', 'build', 'bin', 'aitb-driver')
     if not os.path.exists(exe):
         return None, 'driver not built'
-    inp = '\n'.join(case_lines) + '\n'
-    try:
-        p = subprocess.run([exe], input=inp, stdout=subprocess.PIPE, stderr=subprocess.PIPE, text=True, timeout=timeout)
-    except subprocess.TimeoutExpired:
-        return None, 'driver timeout'
-    out = p.stdout.split('\n')
-    if out and out[-1] == '':
-        out.pop()
-    if p.returncode != 0 or len(out) != len(case_lines):
-        return None, f'driver rc={p.returncode} lines={len(out)} expected={len(case_lines)} stderr={p.stderr[-500:]}'
-    return out, ''
+    jobs = max(1, min(int(jobs), len(case_lines) // 500 or 1))
+    size = (len(case_lines) + jobs - 1) // jobs
+    chunks = [case_lines[i:i + size] for i in range(0, len(case_lines), size)]
+    procs = [subprocess.Popen([exe], stdin=subprocess.PIPE, stdout=subprocess.PIPE, stderr=subprocess.PIPE, text=True) for _ in chunks]
+    import threading
+    res = [None] * len(chunks)
+
+    def feed(i):
+        try:
+            res[i] = procs[i].communicate('\n'.join(chunks[i]) + '\n', timeout=timeout)
+        except subprocess.TimeoutExpired:
+            procs[i].kill(); procs[i].communicate(); res[i] = None
+    ths = [threading.Thread(target=feed, args=(i,)) for i in range(len(chunks))]
+    for t in ths: t.start()
+    for t in ths: t.join()
+    out_all = []
+    for i, r in enumerate(res):
+        if r is None:
+            return None, 'driver timeout'
+        out = r[0].split('\n')
+        if out and out[-1] == '':
+            out.pop()
+        if procs[i].returncode != 0 or len(out) != len(chunks[i]):
+            return None, f'driver rc={procs[i].returncode} lines={len(out)} expected={len(chunks[i])} stderr={r[1][-500:]}'
+        out_all += out
+    return out_all, ''
 
 
 # ---------------------------------------------------------------- known findings
